@@ -48,6 +48,11 @@ Providers ==
         : k \in {"static", "lib", "both", "exe"}, loc \in {<<"", "">>, <<"sub", "">>, <<"", "sp1">>}, bi \in BbdInstall}
     \cup {T("custom", "c1", loc[1], loc[2], <<>>, <<>>, <<>>, bi[1], bi[2], o, <<>>)
         : loc \in {<<"", "">>, <<"sub", "">>, <<"", "sp1">>}, bi \in BbdInstall, o \in {<<"gen.c", "gen.h">>, <<"out.txt">>}}
+\* run targets as providers: only an alias can depend on them (in the main project or next to them)
+RunProviders == {T("run", "foo", loc[1], loc[2], <<>>, <<>>, <<>>, "unset", FALSE, <<>>, <<>>)
+                   : loc \in {<<"", "">>, <<"sub", "">>, <<"", "sp1">>, <<"sub", "sp1">>}}
+AliasOf(a) == {T("alias", "bar", "", s, <<>>, <<>>, <<>>, "unset", FALSE, <<>>, <<1>>) : s \in {"", a.sp}}
+F3 == UNION {{P(l, "shared", <<a, b>>, NoTest) : l \in Layouts, b \in AliasOf(a)} : a \in RunProviders}
 IsLib(t) == t.kind \in {"static", "shared", "both", "lib"}
 IsCGen(t) == t.kind = "custom" /\ \E k \in DOMAIN t.outs : EndsWith(t.outs[k], ".c")
 \* the consumer uses the provider in the natural way (rel) or ignores it
@@ -79,25 +84,36 @@ Expectations(p) ==
      test |-> SetToSeq(ExpectTests(p, FALSE)), bench |-> SetToSeq(ExpectTests(p, TRUE)),
      files |-> [i \in Targets(p) |-> SetToSeq(FilePaths(p, p.targets[i]))]]
 
-VARIABLES fam, p, built
-vars == <<fam, p, built>>
+\* `started`: TLC evaluates invariants of initial states in its single main thread; the (costly) laws are
+\* therefore stated for the state after the Start step, which the workers generate in parallel
+VARIABLES fam, p, built, started
+vars == <<fam, p, built, started>>
 Init == /\ \/ fam = "F1" /\ p \in F1
-           \/ fam = "F2" /\ p \in F2
+           \/ fam = "F2" /\ p \in F2 \cup F3
         /\ built = {}
+        /\ started = FALSE
+Start == ~started /\ started' = TRUE /\ UNCHANGED <<fam, p, built>>
 G == ModelGraph(p)
 X == ModelExists(p)
-Run(e) == /\ Behavioural
+\* which projects get the full Run(e) exploration (all schedules): "none", "some" (F2, mirror, both, with a
+\* test), "mirror" (all of F2 under layout=mirror)
+Explored == CASE Behavioural = "none" -> FALSE
+              [] Behavioural = "some" -> fam = "F2" /\ p.layout = "mirror" /\ p.deflib = "both" /\ p.tests # <<>>
+                                         /\ ~p.tests[1].bench
+              [] Behavioural = "mirror" -> fam = "F2" /\ p.layout = "mirror"
+              [] OTHER -> TRUE
+Run(e) == /\ Explored /\ started
           /\ Ready(G, X, built, e)
           /\ built' = built \cup {e}
-          /\ UNCHANGED <<fam, p>>
-Next == \E e \in EdgeIds(G) : Run(e)
+          /\ UNCHANGED <<fam, p, started>>
+Next == Start \/ \E e \in EdgeIds(G) : Run(e)
 Spec == Init /\ [][Next]_vars
 
 \* the declarative collision rule is exactly "some path has two producers" in the model's graph
-CollisionRuleCoherent == built = {} => (Collides(p) <=> ~UniqueProducer(G))
+CollisionRuleCoherent == (started /\ built = {}) => (Collides(p) <=> ~UniqueProducer(G))
 \* collision-free projects give well-formed graphs with the expectations reachable
 ModelGraphWellFormed ==
-    (built = {} /\ ~Collides(p)) =>
+    (started /\ built = {} /\ ~Collides(p)) =>
         /\ WellFormed(G, X)
         /\ Acyclic(G)
         /\ ExpectAll(p) \subseteq ReachPaths(G, {"all"})
@@ -105,16 +121,16 @@ ModelGraphWellFormed ==
         /\ ExpectTests(p, TRUE) \subseteq ReachPaths(G, {"meson-benchmark-prereq"})
         /\ ExpectTests(p, FALSE) \subseteq ReachPaths(G, {"test"})
 \* behavioural form: no schedule of a collision-free project gets stuck before everything is built
-NoStuckSchedule == (~Collides(p) /\ Enabled(G, X, built) = {}) => built = EdgeIds(G)
+NoStuckSchedule == (started /\ ~Collides(p) /\ Enabled(G, X, built) = {}) => built = EdgeIds(G)
 \* a target that is not built by default and that nothing default needs stays out of `all` in the model
 \* (sanity of ExpectAll: it is not simply "everything")
 ExpectAllIsSelective ==
-    (built = {} /\ ~Collides(p)) => \A i \in Targets(p) : (~DefaultBuilt(p.targets[i]) /\ IsBuildable(p.targets[i])
+    (started /\ built = {} /\ ~Collides(p)) => \A i \in Targets(p) : (~DefaultBuilt(p.targets[i]) /\ IsBuildable(p.targets[i])
                                          /\ \A j \in Targets(p) : i \notin Rng(p.targets[j].link) \cup Rng(p.targets[j].gen)
                                                                              \cup Rng(p.targets[j].deps))
                                         => FilePaths(p, p.targets[i]) \cap ExpectAll(p) = {}
 \* flat layout: same file name in two directories collides; mirror: it does not
-FlatRule == built = {} =>
+FlatRule == (started /\ built = {}) =>
     \A i, j \in Targets(p) :
         (i < j /\ ~IsRunLike(p.targets[i]) /\ ~IsRunLike(p.targets[j])
          /\ FileNames(p, p.targets[i]) \cap FileNames(p, p.targets[j]) # {})
@@ -124,6 +140,8 @@ WithX(q) == [q EXCEPT !.name = "fam"] @@ [x |-> Expectations(q)]
 EmitFamily == TLCGet("stats").diameter >= 0 /\
               LET s1 == SetToSeq(F1)
                   s2 == SetToSeq(F2)
+                  s3 == SetToSeq(F3)
               IN JsonSerialize("family.json", [f1 |-> [i \in DOMAIN s1 |-> WithX(s1[i])],
-                                               f2 |-> [i \in DOMAIN s2 |-> WithX(s2[i])]])
+                                               f2 |-> [i \in DOMAIN s2 |-> WithX(s2[i])],
+                                               f3 |-> [i \in DOMAIN s3 |-> WithX(s3[i])]])
 =============================================================================
